@@ -33,7 +33,8 @@ def header : List String :=
 abbrev Scope := Nat × Nat × Nat
 
 def v5Datagram : G Bytes := do
-  let k ← range 0 8
+  -- mostly small; now and then the largest datagrams the format allows (30 records = 1464 bytes)
+  let k ← if (← chance 1 10) then pick [29, 30, 30] else range 0 8
   let rs ← listOf k C05.genRecord
   let h ← C05.genHeader k
   pure (Spec.V5.encode h rs)
@@ -64,7 +65,8 @@ def genMixed (pipe : String) (n : Nat) (malformedPct : Nat := 0) : G (List Strin
         known := (sc, if willMutate then [] else kn') :: known.filter (fun x => x.1 != sc)
         pure (Spec.Netflow.encode m, Spec.Netflow.flowRecords m)
       else if proto < 8 ∨ pipe = "nf" then do
-        let k ← range 0 8
+        -- mostly small; now and then the largest datagrams the format allows (30 records = 1464 bytes)
+        let k ← if (← chance 1 8) then pick [29, 30, 30] else range 0 8
         let rs ← listOf k C05.genRecord
         let h ← C05.genHeader k
         pure (Spec.V5.encode h rs, k)
